@@ -29,6 +29,14 @@ type Violation struct {
 	Sig    string `json:"sig"`
 	Msg    string `json:"msg"`
 	Detail any    `json:"detail,omitempty"`
+	// Case locates the input case in the check's enumerations: the Part-th enumeration the check runs (in program order)
+	// and the index inside it. `vc replay` re-runs exactly that case, sequentially, in one process.
+	Case *CaseRef `json:"case,omitempty"`
+}
+
+type CaseRef struct {
+	Part  int   `json:"part"`
+	Index int64 `json:"index"`
 }
 
 type Finding struct {
@@ -212,6 +220,8 @@ type Local struct {
 	// Mute: counters are not advanced (an execution that every shard has to repeat — the root of an exploration that
 	// is split over the shards — is counted by shard 0 only). Violations are always recorded.
 	Mute bool
+	// Case is set by package enum around every case it runs.
+	Case *CaseRef
 }
 
 func (r *Rec) Local() *Local {
@@ -235,7 +245,7 @@ func (l *Local) Trace() {
 	}
 }
 func (l *Local) Sample(s any) { l.r.Sample(s) }
-func (l *Local) Violation(sig, msg string, detail any) { l.r.Violation(sig, msg, detail) }
+func (l *Local) Violation(sig, msg string, detail any) { l.r.violation(sig, msg, detail, l.Case) }
 func (l *Local) Merge() {
 	l.r.mu.Lock()
 	defer l.r.mu.Unlock()
@@ -262,12 +272,19 @@ func (r *Rec) Sample(s any) {
 	}
 }
 
-func (r *Rec) Violation(sig, msg string, detail any) {
+func (r *Rec) Violation(sig, msg string, detail any) { r.violation(sig, msg, detail, nil) }
+
+func (r *Rec) violation(sig, msg string, detail any, c *CaseRef) {
 	r.mu.Lock()
 	defer r.mu.Unlock()
 	r.violCount[sig]++
 	if old, ok := r.viol[sig]; !ok || len(msg) < len(old.Msg) {
-		r.viol[sig] = &Violation{Sig: sig, Msg: msg, Detail: detail}
+		v := &Violation{Sig: sig, Msg: msg, Detail: detail}
+		if c != nil {
+			cc := *c
+			v.Case = &cc
+		}
+		r.viol[sig] = v
 	}
 }
 
@@ -432,7 +449,7 @@ func (r *Rec) Finish() int {
 		v := r.viol[s]
 		h := sha256.Sum256([]byte(s))
 		p := filepath.Join(rpDir, fmt.Sprintf("%s-%s.json", r.ID, hex.EncodeToString(h[:6])))
-		rb, _ := json.MarshalIndent(map[string]any{"property": r.ID, "tier": r.Tier, "sig": v.Sig, "msg": v.Msg, "count": r.violCount[s], "detail": v.Detail}, "", " ")
+		rb, _ := json.MarshalIndent(map[string]any{"property": r.ID, "tier": r.Tier, "sig": v.Sig, "msg": v.Msg, "count": r.violCount[s], "detail": v.Detail, "case": v.Case}, "", " ")
 		os.WriteFile(p, rb, 0o644)
 		fmt.Printf("VIOLATION property=%s replay=%s\n", r.ID, p)
 		fmt.Printf("  sig: %s\n  msg: %s\n", v.Sig, oneLine(v.Msg))
